@@ -2,6 +2,7 @@ package mbapp
 
 import (
 	"context"
+	"io"
 	"sync"
 )
 
@@ -16,6 +17,8 @@ type ask struct {
 	respBuf []byte
 	n       int
 	errCode uint8
+	// err is set when the response could not be handed over intact
+	err error
 }
 
 func (a *ask) await(ctx context.Context) error {
@@ -31,6 +34,10 @@ func (a *ask) await(ctx context.Context) error {
 func (a *ask) complete(resp []byte, errCode uint8) {
 	a.once.Do(func() {
 		a.errCode = errCode
+		if len(resp) > len(a.respBuf) {
+			// the response does not fit: an error, not a truncated success
+			a.err = io.ErrShortBuffer
+		}
 		a.n = copy(a.respBuf, resp)
 		close(a.done)
 	})
